@@ -288,3 +288,20 @@ PROPS["C13"] = dict(
     floors={"quick": {"clean_sessions": 400, "tampered_sessions": 4000, "tamper_detected_by_reader": 3500, "sessions_with_back_pressure": 100, "sessions_with_maximal_frame": 100, "tamper_SwapWithNext": 50, "tamper_Replay": 50},
             "thorough": {"tampered_sessions": 100000}},
 )
+
+PROPS["C14"] = dict(
+    title="Multiplexed streams are isolated, ordered and flow-controlled",
+    level="exploration",
+    technique="runtime monitoring: per-substream exactly-once/in-order/no-crosstalk checker with self-identifying payloads, open-stream counter, un-consumed-bytes bound against a flooding raw peer",
+    explanation="(pair) Two real multiplexers (network crate, through the verif facade) over the scripted transport (chunk caps, Pending injections, bounded buffering) with 2-4 "
+    "capabilities and random limit pairs incl. 0 and mismatched; up to 5 clients per capability open transient streams, write 8 B - 320 kB of 8-byte words that encode (direction, "
+    "capability, stream serial, index) in random piece sizes with random flushes, close the write half and read the response to end of stream; servers read in random chunk sizes, "
+    "sometimes drop early, respond and close. Checked per stream: bytes received == bytes sent (complete, in order, once), no foreign word ever, end-of-stream only after the counterpart "
+    "closed, concurrently open streams <= min(local, peer limit), nothing opens with limit 0; a virtual-time deadlock is a violation. (flood) a raw peer written in the harness completes "
+    "the mux handshake, opens a stream and floods 3 MB of DATA without ever reading while the application never consumes: bytes pulled from the transport must stay within "
+    "read_buffer_size + one frame + headers.",
+    assumptions=["held on the generated interleavings (deterministic current-thread runtime; schedule diversity comes from the transport script and task plans)"],
+    stages=[dict(name="mux", flavour="release", **NET)],
+    floors={"quick": {"transient_streams_completed": 3000, "capabilities_that_reached_their_stream_limit": 200, "capabilities_with_mismatched_limits": 200, "capabilities_with_zero_limit": 50, "flood_with_open_cases": 100},
+            "thorough": {"transient_streams_completed": 100000}},
+)
